@@ -5,7 +5,7 @@ A program is a list of tokens (joined by blanks, so token k of the text is lexed
 (form, first token, last token, name, expected reading or None when the name is undeclared) for every ambiguous construct."""
 
 FORMS_STMT = ["mul", "call"]                  # A * b ;     A ( b ) ;
-FORMS_EXPR = ["cast-", "cast+", "cast*", "cast&", "sizeof", "alignof", "tail-", "tail+"]
+FORMS_EXPR = ["cast-", "cast+", "cast*", "cast&", "sizeof", "alignof", "tail-", "tail+", "nest-", "nest+", "nest*", "nest&"]
 
 
 class P:
@@ -120,6 +120,20 @@ class P:
             self.e_site(a); self.e_non(b)
             self.emit("(", a, ")", op, b)
             want = None if cat is None else ("cast" if cat == "type" else "binary")
+        elif form.startswith("nest"):
+            # ( A ) - ( B ) - c : an ambiguity directly in operand position of another one; what the construct means depends on both names,
+            # so no reading is prescribed here (want None): the tree criteria (nothing left ambiguous without a diagnostic) apply
+            op = form[4]
+            b = self.pick()
+            c2 = self.operand()
+            self.e_site(a)
+            self.emit("(", a, ")", op)
+            self.sites.append((form, first, len(self.toks) + 5, a, None))
+            first2 = len(self.toks) + 1
+            self.e_site(b); self.e_non(c2)
+            self.emit("(", b, ")", op, c2)
+            self.sites.append((form, first2, len(self.toks), b, None))
+            return
         elif form.startswith("tail"):
             # ( A ) - b * c : a cast of -b multiplied by c, or (A) minus the product
             op = form[4]
